@@ -16,9 +16,9 @@ func y() { simrt.Yield(cAtomic) }
 
 type Bool struct{ v atomic.Bool }
 
-func (x *Bool) Load() bool                       { y(); return x.v.Load() }
-func (x *Bool) Store(val bool)                   { y(); x.v.Store(val) }
-func (x *Bool) Swap(new bool) bool               { y(); return x.v.Swap(new) }
+func (x *Bool) Load() bool                        { y(); return x.v.Load() }
+func (x *Bool) Store(val bool)                    { y(); x.v.Store(val) }
+func (x *Bool) Swap(new bool) bool                { y(); return x.v.Swap(new) }
 func (x *Bool) CompareAndSwap(old, new bool) bool { y(); return x.v.CompareAndSwap(old, new) }
 
 type Int32 struct{ v atomic.Int32 }
@@ -72,28 +72,34 @@ func (x *Value) Store(val any)                    { y(); x.v.Store(val) }
 func (x *Value) Swap(new any) any                 { y(); return x.v.Swap(new) }
 func (x *Value) CompareAndSwap(old, new any) bool { y(); return x.v.CompareAndSwap(old, new) }
 
-func AddInt32(p *int32, d int32) int32       { y(); return atomic.AddInt32(p, d) }
-func AddInt64(p *int64, d int64) int64       { y(); return atomic.AddInt64(p, d) }
-func AddUint32(p *uint32, d uint32) uint32   { y(); return atomic.AddUint32(p, d) }
-func AddUint64(p *uint64, d uint64) uint64   { y(); return atomic.AddUint64(p, d) }
-func LoadInt32(p *int32) int32               { y(); return atomic.LoadInt32(p) }
-func LoadInt64(p *int64) int64               { y(); return atomic.LoadInt64(p) }
-func LoadUint32(p *uint32) uint32            { y(); return atomic.LoadUint32(p) }
-func LoadUint64(p *uint64) uint64            { y(); return atomic.LoadUint64(p) }
-func LoadUintptr(p *uintptr) uintptr         { y(); return atomic.LoadUintptr(p) }
-func StoreInt32(p *int32, v int32)           { y(); atomic.StoreInt32(p, v) }
-func StoreInt64(p *int64, v int64)           { y(); atomic.StoreInt64(p, v) }
-func StoreUint32(p *uint32, v uint32)        { y(); atomic.StoreUint32(p, v) }
-func StoreUint64(p *uint64, v uint64)        { y(); atomic.StoreUint64(p, v) }
-func StoreUintptr(p *uintptr, v uintptr)     { y(); atomic.StoreUintptr(p, v) }
-func SwapInt32(p *int32, v int32) int32      { y(); return atomic.SwapInt32(p, v) }
-func SwapInt64(p *int64, v int64) int64      { y(); return atomic.SwapInt64(p, v) }
-func SwapUint32(p *uint32, v uint32) uint32  { y(); return atomic.SwapUint32(p, v) }
-func SwapUint64(p *uint64, v uint64) uint64  { y(); return atomic.SwapUint64(p, v) }
-func CompareAndSwapInt32(p *int32, o, n int32) bool    { y(); return atomic.CompareAndSwapInt32(p, o, n) }
-func CompareAndSwapInt64(p *int64, o, n int64) bool    { y(); return atomic.CompareAndSwapInt64(p, o, n) }
-func CompareAndSwapUint32(p *uint32, o, n uint32) bool { y(); return atomic.CompareAndSwapUint32(p, o, n) }
-func CompareAndSwapUint64(p *uint64, o, n uint64) bool { y(); return atomic.CompareAndSwapUint64(p, o, n) }
+func AddInt32(p *int32, d int32) int32              { y(); return atomic.AddInt32(p, d) }
+func AddInt64(p *int64, d int64) int64              { y(); return atomic.AddInt64(p, d) }
+func AddUint32(p *uint32, d uint32) uint32          { y(); return atomic.AddUint32(p, d) }
+func AddUint64(p *uint64, d uint64) uint64          { y(); return atomic.AddUint64(p, d) }
+func LoadInt32(p *int32) int32                      { y(); return atomic.LoadInt32(p) }
+func LoadInt64(p *int64) int64                      { y(); return atomic.LoadInt64(p) }
+func LoadUint32(p *uint32) uint32                   { y(); return atomic.LoadUint32(p) }
+func LoadUint64(p *uint64) uint64                   { y(); return atomic.LoadUint64(p) }
+func LoadUintptr(p *uintptr) uintptr                { y(); return atomic.LoadUintptr(p) }
+func StoreInt32(p *int32, v int32)                  { y(); atomic.StoreInt32(p, v) }
+func StoreInt64(p *int64, v int64)                  { y(); atomic.StoreInt64(p, v) }
+func StoreUint32(p *uint32, v uint32)               { y(); atomic.StoreUint32(p, v) }
+func StoreUint64(p *uint64, v uint64)               { y(); atomic.StoreUint64(p, v) }
+func StoreUintptr(p *uintptr, v uintptr)            { y(); atomic.StoreUintptr(p, v) }
+func SwapInt32(p *int32, v int32) int32             { y(); return atomic.SwapInt32(p, v) }
+func SwapInt64(p *int64, v int64) int64             { y(); return atomic.SwapInt64(p, v) }
+func SwapUint32(p *uint32, v uint32) uint32         { y(); return atomic.SwapUint32(p, v) }
+func SwapUint64(p *uint64, v uint64) uint64         { y(); return atomic.SwapUint64(p, v) }
+func CompareAndSwapInt32(p *int32, o, n int32) bool { y(); return atomic.CompareAndSwapInt32(p, o, n) }
+func CompareAndSwapInt64(p *int64, o, n int64) bool { y(); return atomic.CompareAndSwapInt64(p, o, n) }
+func CompareAndSwapUint32(p *uint32, o, n uint32) bool {
+	y()
+	return atomic.CompareAndSwapUint32(p, o, n)
+}
+func CompareAndSwapUint64(p *uint64, o, n uint64) bool {
+	y()
+	return atomic.CompareAndSwapUint64(p, o, n)
+}
 
 func LoadPointer(p *unsafe.Pointer) unsafe.Pointer     { y(); return atomic.LoadPointer(p) }
 func StorePointer(p *unsafe.Pointer, v unsafe.Pointer) { y(); atomic.StorePointer(p, v) }
